@@ -23,11 +23,24 @@ pub fn gen_steps(t: &mut Tape, len: usize, max: usize) -> Vec<Step> {
         .collect()
 }
 
+/// nums = [remaining length]: a body-less packet, a PUBLISH of exactly that remaining length and a
+/// small packet back to back (the 2 MiB header-width boundary in the middle of a stream)
+fn sized_sequence<F: Family>(input: &Input, ctx: &mut Ctx) -> CaseResult {
+    let rl = input.nums().first().copied().unwrap_or(4) as usize;
+    let seed: Vec<u16> = vec![(rl as u16).wrapping_mul(31), 0x9000, 0x2000, 0xE000, 0x5000, 0xB000, 0x1000, 0xF000, 0x7000, 0x3000];
+    let mut t = Tape::new(&seed);
+    let mut e = Tape::new(&[]);
+    let first = F::gen_of_type(&mut e, &GenCfg::SMALL, 11).map_err(|e| Violation::new(e.0))?;
+    let last = F::gen_of_type(&mut e, &GenCfg::SMALL, 3).map_err(|e| Violation::new(e.0))?;
+    let pkts = vec![first, c01::sized_publish::<F>(rl), last];
+    ctx.label("sized-sequence");
+    check_sequence::<F>(pkts, rl >= 2_097_152, &mut t, ctx)
+}
+
 fn sequence<F: Family>(input: &Input, ctx: &mut Ctx) -> CaseResult {
     let mut t = Tape::new(input.tape());
     let n = 1 + t.weighted(&[2, 5, 5, 4, 3, 2, 1, 1]);
     let mut pkts: Vec<F::Packet> = Vec::new();
-    let mut encs: Vec<Vec<u8>> = Vec::new();
     let mut big = false;
     for _ in 0..n {
         let p = if ctx.thorough && !big && t.chance(1, 400) {
@@ -38,11 +51,19 @@ fn sequence<F: Family>(input: &Input, ctx: &mut Ctx) -> CaseResult {
             let cfg = if t.chance(1, 8) { GenCfg::MEDIUM } else { GenCfg::SMALL };
             F::gen(&mut t, &cfg).map_err(|e| Violation::new(e.0))?
         };
-        let e = match F::encode(&p) {
-            Ok(b) => b.as_ref().to_vec(),
-            Err(e) => viol!("encode of a valid packet failed: {:?}; packet {}", e, fam::render(&p)),
-        };
         pkts.push(p);
+    }
+    check_sequence::<F>(pkts, big, &mut t, ctx)
+}
+
+fn check_sequence<F: Family>(pkts: Vec<F::Packet>, big: bool, t: &mut Tape, ctx: &mut Ctx) -> CaseResult {
+    let n = pkts.len();
+    let mut encs: Vec<Vec<u8>> = Vec::new();
+    for p in &pkts {
+        let e = match F::encode(p) {
+            Ok(b) => b.as_ref().to_vec(),
+            Err(e) => viol!("encode of a valid packet failed: {:?}; packet {}", e, fam::render(p)),
+        };
         encs.push(e);
     }
     let stream: Vec<u8> = encs.concat();
@@ -117,7 +138,7 @@ fn sequence<F: Family>(input: &Input, ctx: &mut Ctx) -> CaseResult {
     }
 
     // async and poll over a chunked transport with Pending
-    let steps = gen_steps(&mut t, stream.len(), 48);
+    let steps = gen_steps(t, stream.len(), 48);
     {
         let mut rd = ScriptedReader::new(&stream, &steps);
         for (i, p) in pkts.iter().enumerate() {
@@ -189,17 +210,29 @@ fn sequence<F: Family>(input: &Input, ctx: &mut Ctx) -> CaseResult {
     Ok(())
 }
 
+pub const SUB_Z3: Sub = Sub { name: "c08.sized.v3", f: sized_sequence::<V3> };
+pub const SUB_Z5: Sub = Sub { name: "c08.sized.v5", f: sized_sequence::<V5> };
 pub const SUB_V3: Sub = Sub { name: "c08.sequence.v3", f: sequence::<V3> };
 pub const SUB_V5: Sub = Sub { name: "c08.sequence.v5", f: sequence::<V5> };
 
 pub fn subs() -> Vec<Sub> {
-    vec![SUB_V3, SUB_V5]
+    vec![SUB_V3, SUB_V5, SUB_Z3, SUB_Z5]
 }
 
 pub fn run(env: &mut Env) -> RunResult {
     let n = env.tier.sel(40_000, 300_000);
     env.run_tapes(SUB_V3, n, 400)?;
     env.run_tapes(SUB_V5, n, 700)?;
+    let sizes: Vec<Input> = [126u64, 127, 128, 129, 16_382, 16_383, 16_384, 16_385, 16_386, 2_097_150, 2_097_151, 2_097_152, 2_097_153, 2_097_154, 2_097_155, 2_097_156]
+        .iter()
+        .map(|x| Input::Nums(vec![*x]))
+        .collect();
+    let k = sizes.len() as u64;
+    let z = sizes.clone();
+    env.run_enum(SUB_Z3, k, false, move |i| z[i as usize].clone())?;
+    env.run_enum(SUB_Z5, k, false, move |i| sizes[i as usize].clone())?;
+    env.require("c08.sized.v3", "contains-4-byte-header");
+    env.require("c08.sized.v5", "contains-4-byte-header");
     for s in ["c08.sequence.v3", "c08.sequence.v5"] {
         env.require(s, "contains-body-less-packet");
         env.require(s, "sequence-length:1");
